@@ -2,15 +2,19 @@
 # usage: tools/runall.sh quick|thorough [ids...]  — runs the checks sequentially on the current tree, validates the evidence
 TIER=${1:-quick}; shift
 IDS="$@"; [ -z "$IDS" ] && IDS="C01 C02 C03 C04 C05 C06 C07 C08 C09 C10 C11 C12 C13 C14 C15 C16 C17 C18 C19 C20"
+# the thorough tier keeps its evidence beside the quick tier's (evidence-thorough/), so that a long run does not
+# replace the per-change evidence; `./check <id> thorough` on its own writes evidence/<id>.json as usual
+if [ "$TIER" = thorough ] && [ -z "${VERIF_EVIDENCE:-}" ]; then VERIF_EVIDENCE=/verif/evidence-thorough; export VERIF_EVIDENCE; mkdir -p $VERIF_EVIDENCE; fi
+EVDIR=${VERIF_EVIDENCE:-/verif/evidence}
 for id in $IDS; do
   s=$(date +%s); out=$(/verif/check $id $TIER 2>&1); rc=$?; e=$(date +%s)
   echo "$id rc=$rc $((e-s))s :: $(echo "$out" | tail -1)"
   [ $rc -ne 0 ] && echo "$out" | grep -a "VIOLATION\|INCONCLUSIVE\|^--- " | head -5
 done
-python3-vt - <<'PY'
+EVDIR=$EVDIR python3-vt - <<'PY'
 import json,jsonschema,glob
 s=json.load(open('/root/.vp/EVIDENCE.schema.json'))
-for f in sorted(glob.glob('/verif/evidence/*.json')):
+for f in sorted(glob.glob(os.environ.get('EVDIR','/verif/evidence')+'/*.json')):
     try:
         jsonschema.validate(json.load(open(f)),s)
     except Exception as e:
